@@ -872,6 +872,13 @@ def c12_corpus(tier, seed):
     for tr in ['Debug', 'Clone', 'PartialEq', 'Hash', 'Default']:
         add('struct', rich, [('S', 'named', [Field(T), Field(PH(U)), Field(U8)], False)], [(tr, None)], where='T: Marker2')
     add('struct', rich, [('S', 'tuple', [Field(T, Deref='marker', DerefMut='marker'), Field(PH(U))], False)], [('Deref', None), ('DerefMut', None)], where='T: Marker2')
+    # companion impls (Eq with PartialEq, PartialOrd with Ord, Copy with Clone) on rich headers, struct and enum: the partner impl is emitted
+    # by the primary's handler and must reproduce the header as well (lifetimes first, inline bounds kept, defaults dropped)
+    for pair, hand in [([('PartialEq', None), ('Eq', None)], []), ([('PartialOrd', None), ('Ord', None)], ['PartialEq', 'Eq']), ([('Ord', None), ('PartialOrd', None)], ['PartialEq', 'Eq'])]:
+        add('struct', rich, [('S', 'named', [Field(T), Field(PH(U)), Field(U8)], False)], pair, hand=hand, where='T: Marker2')
+        add('enum', rich, [('A', 'tuple', [Field(T), Field(PH(U))], False), ('B', 'unit', [], False)], pair, hand=hand)
+    add('struct', rich, [('S', 'named', [Field(PH(T)), Field(PH(U)), Field(U8)], False)], [('Copy', None), ('Clone', None)])
+    add('enum', rich, [('A', 'tuple', [Field(PH(T)), Field(PH(U))], False), ('B', 'unit', [], False)], [('Clone', None), ('Copy', None)], where='T: Marker2')
     return reqs
 
 
